@@ -35,7 +35,9 @@ CONSTANTS
     MemCap,             \* entries the memory tier holds
     Policy,             \* "woi" (write on insertion) | "woe" (write on eviction)
     FlushOnClose,       \* BOOLEAN
-    TombLog             \* BOOLEAN: tombstone log enabled
+    TombLog,            \* BOOLEAN: tombstone log enabled
+    BufCap              \* entries the flusher's buffer holds (io buffer size / entry size); a submission that does
+                        \* not fit is dropped (storage_queue_buffer_overflow)
 
 VARIABLES S, out
 
@@ -61,6 +63,7 @@ S0 == [ mem    |-> <<>>,                       \* Seq([k, v, loc, age]) FIFO ord
         loc    |-> [k \in Keys |-> "none"],    \* placement advice of the version that is truth[k]
         nv     |-> 0,
         vkey   |-> <<>>,                       \* key of version i
+        shed   |-> {},                         \* keys whose latest disk write was shed (flush buffer full): outside C01 / C15
         touched |-> Keys,                      \* keys operated on since the last reopen (C15 looks at the others)
         enq    |-> <<>>,                       \* hashes offered to the disk tier (admission filter calls) in this step
         enqv   |-> <<>>,                       \* ... and the versions offered
@@ -76,7 +79,9 @@ Enqueue(T, k, v, age) ==
     LET T1 == [T EXCEPT !.enq = Append(@, Hash[k]), !.enqv = Append(@, v)] IN
     IF ~T.active \/ age = "young"
     THEN [T1 EXCEPT !.keeper[k] = 0]            \* PieceRef dropped at once: removes the keeper entry of the key
-    ELSE [T1 EXCEPT !.keeper[k] = v, !.seq = @ + 1,
+    ELSE IF Cardinality({i \in DOMAIN T.buf : T.buf[i][1] = "e"}) >= BufCap
+    THEN [T1 EXCEPT !.keeper[k] = 0, !.seq = @ + 1, !.shed = @ \cup {k}]   \* buffer overflow: the flusher drops the piece
+    ELSE [T1 EXCEPT !.keeper[k] = v, !.seq = @ + 1, !.shed = @ \ {k},
                     !.buf = Append(@, <<"e", k, v, T.seq>>)]
 
 \* HybridCachePipe::send
@@ -168,7 +173,7 @@ Begin(T) == [T EXCEPT !.enq = <<>>, !.enqv = <<>>, !.wr = <<>>]
 Init == S = S0 /\ out = [op |-> [a |-> "init"], res |-> 0]
 
 \* insert_with_properties(k, v, location), handle dropped at once
-Insert(k) ==
+InsertGen(k, nt) ==
     /\ S.active
     /\ LET T == Begin(S)
            loc == KeyLoc[k]
@@ -182,8 +187,12 @@ Insert(k) ==
                       Enqueue(T3, k, v, "fresh")
                  ELSE LET T3 == MemInsert(T1, k, v, loc, "fresh") IN
                       IF Policy = "woi" /\ loc # "inmem" THEN Enqueue(T3, k, v, "fresh") ELSE T3 IN
-       S' = Pump(T2)
-    /\ out' = [op |-> [a |-> "ins", k |-> k, loc |-> KeyLoc[k]], res |-> 0]
+       S' = IF nt THEN T2 ELSE Pump(T2)
+    /\ out' = [op |-> [a |-> IF nt THEN "ins_nt" ELSE "ins", k |-> k, loc |-> KeyLoc[k]], res |-> 0]
+
+Insert(k) == InsertGen(k, FALSE)
+\* insert immediately followed by the caller's next call (the flusher task does not run in between)
+InsertNoTurn(k) == InsertGen(k, TRUE)
 
 Remove(k) ==
     /\ S.active
@@ -203,6 +212,15 @@ Get(k) ==
     /\ LET g == GetStep(Begin(S), k) IN
        /\ S' = Pump(g.T)
        /\ out' = [op |-> [a |-> "get", k |-> k], res |-> g.res]
+
+\* Store::load called directly (the disk tier's own lookup: write queue, then index + key comparison); the
+\* memory tier is neither consulted nor populated.  Under write-on-eviction the disk tier may legitimately
+\* hold an older version than memory: the only thing the properties say about this call is that its answer
+\* is a version of the key asked for (C17)
+SLoad(k) ==
+    /\ S.active
+    /\ S' = Pump(Begin(S))
+    /\ out' = [op |-> [a |-> "sload", k |-> k], res |-> Load(Begin(S), k)[2]]
 
 \* get_or_fetch: the origin returns the current source-of-truth version of k (creating one if none)
 Fetch(k) ==
@@ -232,6 +250,15 @@ EvictAll ==
        S' = Pump(IF Policy = "woe" THEN PipeSendAll(T1, T.mem) ELSE T1)
     /\ out' = [op |-> [a |-> "evict_all"], res |-> 0]
 
+\* evict_all immediately followed by the caller's next call: the flusher task does not get to run in between,
+\* the evicted entries are still queued when the next operation starts
+EvictAllNoTurn ==
+    /\ S.active
+    /\ LET T == Begin(S)
+           T1 == [T EXCEPT !.mem = <<>>] IN
+       S' = IF Policy = "woe" THEN PipeSendAll(T1, T.mem) ELSE T1
+    /\ out' = [op |-> [a |-> "evict_all_nt"], res |-> 0]
+
 Hold   == S.active /\ ~S.hold /\ S' = [Begin(S) EXCEPT !.hold = TRUE] /\ out' = [op |-> [a |-> "hold"], res |-> 0]
 Unhold == S.hold /\ S' = Pump([Begin(S) EXCEPT !.hold = FALSE]) /\ out' = [op |-> [a |-> "unhold"], res |-> 0]
 GateOn == S.active /\ ~S.gate /\ S' = [Begin(S) EXCEPT !.gate = TRUE] /\ out' = [op |-> [a |-> "gate_on"], res |-> 0]
@@ -244,7 +271,7 @@ GateStep == S.gate /\ S.inio /\ S.hold /\ S' = Pump(BatchDone(Begin(S))) /\ out'
 \* the engine stops accepting work and waits for the flusher
 Close ==
     /\ S.active /\ ~S.hold /\ ~S.gate
-    /\ LET T == Begin(S)
+    /\ LET T == Pump(Begin(S))          \* HybridCachePipe::flush first waits for everything queued (store.wait())
            T1 == IF FlushOnClose /\ Policy = "woe"
                  THEN PipeSendAll([T EXCEPT !.mem = <<>>], T.mem)
                  ELSE IF FlushOnClose THEN [T EXCEPT !.mem = <<>>] ELSE T IN
@@ -268,7 +295,8 @@ MaxSeq(T) == LET all == {e.seq : e \in T.disk} \cup {t.seq : t \in T.tlog} IN
 Reopen ==
     /\ ~S.active
     /\ S' = [S0 EXCEPT !.disk = S.disk, !.tlog = S.tlog, !.index = Recovered(S), !.seq = MaxSeq(S) + 1,
-                      !.truth = S.truth, !.loc = S.loc, !.nv = S.nv, !.vkey = S.vkey, !.touched = {}]
+                      !.truth = S.truth, !.loc = S.loc, !.nv = S.nv, !.vkey = S.vkey, !.touched = {},
+                      !.shed = S.shed]
     /\ out' = [op |-> [a |-> "reopen"], res |-> 0]
 
 -------------------------------------------------------------------------------
@@ -277,9 +305,9 @@ Reopen ==
 \* C01 as a state predicate: what a lookup of k would return now
 WouldRead(k) == GetStep(S, k).res
 \* keys outside C01's claim: advice alternating between in-memory-only and disk (handled by the driver:
-\* a key keeps its class) - nothing is shed in this model
-NoStaleNoForeign == \A k \in Keys : WouldRead(k) \in {0, S.truth[k]}
-LastLookupOK == out.op.a \in {"get", "fetch"} => out.res \in {0, S.truth[out.op.k]}
+\* a key keeps its class); keys whose latest write was shed by a full flush buffer (S.shed)
+NoStaleNoForeign == \A k \in Keys \ S.shed : WouldRead(k) \in {0, S.truth[k]}
+LastLookupOK == (out.op.a \in {"get", "fetch"} /\ out.op.k \notin S.shed) => out.res \in {0, S.truth[out.op.k]}
 
 \* C12
 InMemNeverOnDevice == \A e \in S.disk : \A k \in Keys : (e.k = k /\ S.truth[k] = e.v) => S.loc[k] # "inmem"
@@ -294,11 +322,14 @@ HitCausesNoWrite == (out.op.a = "get" /\ out.res # 0 /\ KeyLoc[out.op.k] # "ondi
 Collides(k) == \E k2 \in Keys \ {k} : Hash[k2] = Hash[k]
 ClosePersists ==
     (out.op.a = "reopen" /\ FlushOnClose) =>
-        \A k \in Keys : (S.truth[k] # 0 /\ S.loc[k] # "inmem" /\ ~Collides(k)) => WouldRead(k) = S.truth[k]
+        \A k \in Keys \ S.shed : (S.truth[k] # 0 /\ S.loc[k] # "inmem" /\ ~Collides(k)) => WouldRead(k) = S.truth[k]
 
 TypeOK == /\ Len(S.mem) <= MemCap
           /\ S.inio = (S.io # <<>>)
 
-Inv == TypeOK /\ NoStaleNoForeign /\ LastLookupOK /\ OnDiskNotRetained /\ HitCausesNoWrite
+\* the disk tier's own lookup answers with a version of the key asked for
+StoreLoadOwnKey == out.op.a = "sload" => (out.res = 0 \/ S.vkey[out.res] = out.op.k)
+
+Inv == TypeOK /\ NoStaleNoForeign /\ LastLookupOK /\ StoreLoadOwnKey /\ OnDiskNotRetained /\ HitCausesNoWrite
        /\ InMemNeverOnDevice /\ ClosePersists
 ===============================================================================
